@@ -8,6 +8,7 @@ def run(ctx):
     shared.history_target_nonempty(ctx, "R2b")
     shared.descent_filters_history(ctx, "R2c")
     shared.explicit_child_skip(ctx, "R3")
+    shared.role_defects(ctx, "R1")
     shared.single_history_entry(ctx, "R4")
     shared.macrostep_in_consumer(ctx, "R5")
     shared.snapshot_ancestor_closure(ctx, "R7")
